@@ -73,6 +73,8 @@ class Conn:
     def alloc_server(self):
         # server ids are reused freely (the tool destroys the live one implicitly)
         base = SERVER_BASE + self.rnd.randrange(3)
+        if self.rnd.random() < 0.15:
+            base = 0xffffffff          # the top of the id range
         return base
 
 
@@ -262,6 +264,8 @@ def gen_history(rnd, n_conns=None, n_events=40, known_bias=0.8, chatter=0.1, dia
     items = []
     known = sorted(proto.keys())
     burst = rnd.choice([0, 0, 3, 6, 10, 15])       # a start-up burst logged within one clock tick (relative time 0.0)
+    if rnd.random() < 0.06:
+        burst = 10 ** 6                             # the whole log within one clock tick: every relative time is 0.0
     n_msgs = 0
     for _ in range(n_events):
         if rnd.random() < chatter:
@@ -280,7 +284,9 @@ def gen_history(rnd, n_conns=None, n_events=40, known_bias=0.8, chatter=0.1, dia
                                                'progress 10%\x1cprogress 50%'])))
             continue
         c = rnd.choice(conns)
-        if n_msgs >= burst:
+        if n_msgs >= burst and rnd.random() < 0.01:
+            t_us = rnd.randrange(0, 5000)                   # libwayland's 32-bit microsecond counter wrapped: time goes backwards
+        elif n_msgs >= burst:
             t_us += rnd.choice([0, 0, 1, 13, 250, 999, 1000, 16667, 999999, 1000000, 1000001, 1001000, 2500000, rnd.randrange(0, 3000000)])
         n_msgs += 1
         queue = rnd.choice(['Default Queue', 'Display Queue', 'mesa egl display queue']) if d['queue'] else None
@@ -332,13 +338,24 @@ def gen_history(rnd, n_conns=None, n_events=40, known_bias=0.8, chatter=0.1, dia
             elif r < 0.2 and c.live.get(2) == 'wl_registry' or (r < 0.25 and 'wl_registry' in c.live.values()):
                 reg = rnd.choice([i for i, t in c.live.items() if t == 'wl_registry'])
                 t = rnd.choice(known + SYN_IFACES)
-                if rnd.random() < 0.25:
+                if rnd.random() < 0.2:
+                    t = rnd.choice(SYN_IFACES)                 # an interface the tool has no description for
+                elif rnd.random() < 0.25:
                     t = rnd.choice(['xdg_toplevel', 'xdg_toplevel', 'zxdg_toplevel_v6', 'zwlr_layer_shell_v1'])   # carry titles / app ids
                 i = c.alloc_client()
                 c.live[i] = t
                 c.dead.pop(i, None)
                 m = dict(sent=not c.server_side, iface='wl_registry', id=reg, name='bind',
                          args=[('int', rnd.randrange(1, 60)), ('str', t), ('int', rnd.randrange(1, 7)), ('new', i, None)])
+            elif r < 0.33 and any(t not in proto for t in c.live.values()):
+                # the server announces an object at a server-range id, again and again at the same few ids (no delete_id in
+                # between: the previous incarnation is retired implicitly), incl. the two ends of the range
+                oid, otype = rnd.choice([(i, t) for i, t in c.live.items() if t not in proto])
+                sid = rnd.choice([SERVER_BASE, SERVER_BASE, 0xffffffff, 0xffffffff, SERVER_BASE + 1])
+                t = rnd.choice(['syn_offer', 'syn_offer', 'syn_other'])
+                c.live[sid] = t
+                c.dead.pop(sid, None)
+                m = dict(sent=c.server_side, iface=otype, id=oid, name='announce', args=[('new', sid, t)])
             else:
                 pool = list(c.live.items())
                 if c.zombie and rnd.random() < 0.3:
